@@ -5,7 +5,7 @@ import ast
 from .. import tables
 from ..pat import find_expr, find_stmt, match_expr, match_stmt
 from ..pm import src
-from ..q import FA, attr_stores, call_name, guard_facts, is_self_attr, walk_no_nested
+from ..q import FA, attr_stores, call_name, guard_facts, ifs_on, is_self_attr, walk_no_nested
 from ..rules import api, pair
 
 TECHNIQUE = "R-PAIR twin operations on (samples, log_q), R-WRITERS monotone-store rule, R-ORDER co-update of the two index sets on every path, sortedness-preserving idioms (searchsorted + insert), R-API on the anchored modules, R-ARGMAX contradiction rule with a positive fixture"
@@ -88,17 +88,17 @@ def run(ctx):
     okc = after is not None and aa.cfg.every_exit_path_passes(after, ns_st) and aa.cfg.every_exit_path_passes(after, lp_st) and all(aa.cfg.can_follow(after, x) for x in ns_st + lp_st)
     ctx.ob("R-ORDER", "C04.3", ad, "every path that inserts rows re-derives both the discarded and the live index set afterwards", okc, f"{len(ns_st)} + {len(lp_st)} index-set assignments")
     strict = find_stmt("if self.strict_threshold:\n    $$n = sum(self.samples['logL'] < self.log_likelihood_threshold)\n    $$i = arange(len(self.samples))\n    self.nested_samples_indices = $$i[:$$n]\n    self.live_points_indices = $$i[$$n:]\nelse:\n    $_rest", ad.node)
-    sa_ = [n for n in walk_no_nested(ad.node) if isinstance(n, ast.If) and src(n.test) == "self.strict_threshold"]
+    sa_ = ifs_on(ad.node, "self.strict_threshold")
     oks = False
     if len(sa_) == 1:
-        body = sa_[0].body
+        body = sa_[0][1]
         b1 = match_stmt("$$n = sum(self.samples['logL'] < self.log_likelihood_threshold)", body[0]) if len(body) == 4 else None
         if b1 is not None:
             b2 = match_stmt("$$i = arange(len(self.samples))", body[1])
             oks = b2 is not None and match_stmt("self.nested_samples_indices = $$i[:$$n]", body[2], {**b1, **b2}) is not None and match_stmt("self.live_points_indices = $$i[$$n:]", body[3], {**b1, **b2}) is not None
     ctx.ob("R-LIN", "C04.3", ad, "strict threshold: the two index sets are the complementary prefix / suffix of arange(size), split at the number of samples below the threshold", oks, "")
     # soft branch: remap through the complement of the new positions
-    soft = sa_[0].orelse if len(sa_) == 1 else []
+    soft = sa_[0][2] if len(sa_) == 1 else []
     newpos = find_stmt("$$new = $$i + arange(len($$i))", ad.node)
     # accepted idioms for the positions of the already stored samples after the insertion:
     #  (a) the complement of the new positions;  (b) old rank + number of new samples inserted before it, which with
